@@ -54,6 +54,9 @@ pub struct XCfg {
     pub tag_single: &'static str,
     /// reduced capacity set (min, exact, ample) for the big full-alphabet tiers
     pub few_caps: bool,
+    /// mixed-method run: every call may use the with- or the without-replacement method
+    /// (pending state is method-agnostic and the API allows alternating)
+    pub mixed: bool,
 }
 
 impl XCfg {
@@ -62,7 +65,7 @@ impl XCfg {
             "{}/{}/{}/{}",
             self.enc.name,
             self.sink.name(),
-            if self.repl { "repl" } else { "norepl" },
+            if self.mixed { "mixed" } else if self.repl { "repl" } else { "norepl" },
             match self.bom {
                 BomMode::Off => "bom-off",
                 BomMode::Sniff => "bom-sniff",
@@ -257,8 +260,8 @@ impl<'a> Explorer<'a> {
         Explorer { cfg, chunks: build_chunks(&cfg.syms, cfg.k), chunks_undecided, chunks_switched: if cfg.syms_switched.is_empty() { vec![] } else { build_chunks(&cfg.syms_switched, cfg.k) }, nodes: vec![], keys: vec![], index: HashIndex::new(), edges: vec![], classified: std::sync::atomic::AtomicUsize::new(0), shard: format!("xdec/{}", cfg.label()), node_seen: std::sync::Mutex::new(std::collections::HashSet::new()) }
     }
 
-    fn query(&self, dec: &Decoder, n: usize) -> Option<usize> {
-        match (self.cfg.sink, self.cfg.repl) {
+    fn query(&self, dec: &Decoder, n: usize, repl: bool) -> Option<usize> {
+        match (self.cfg.sink, repl) {
             (Sink::Utf16, _) => dec.max_utf16_buffer_length(n),
             (_, true) => dec.max_utf8_buffer_length(n),
             (_, false) => dec.max_utf8_buffer_length_without_replacement(n),
@@ -266,7 +269,7 @@ impl<'a> Explorer<'a> {
     }
 
     /// Reference output size (units of the sink) of `src` from this node, owed tokens included.
-    fn ref_units(&self, key: &Key, src: &[u8], last: bool) -> usize {
+    fn ref_units(&self, key: &Key, src: &[u8], last: bool, repl: bool) -> usize {
         let utf16 = self.cfg.sink.is_utf16();
         let mut rs = key.rs.clone();
         let mut tmp = vec![];
@@ -281,7 +284,7 @@ impl<'a> Explorer<'a> {
             w += match t {
                 DTok::Char(c) => units_of(*c, utf16),
                 DTok::Err { .. } => {
-                    if self.cfg.repl {
+                    if repl {
                         units_of(0xFFFD, utf16)
                     } else {
                         0
@@ -293,7 +296,7 @@ impl<'a> Explorer<'a> {
             w += match t {
                 RTok::Char(c) => units_of(*c, utf16),
                 RTok::Err { .. } => {
-                    if self.cfg.repl {
+                    if repl {
                         units_of(0xFFFD, utf16)
                     } else {
                         0
@@ -304,9 +307,9 @@ impl<'a> Explorer<'a> {
         w
     }
 
-    fn caps(&self, key: &Key, src: &[u8], last: bool) -> Vec<usize> {
+    fn caps(&self, key: &Key, src: &[u8], last: bool, repl: bool) -> Vec<usize> {
         let min = self.cfg.sink.min_cap();
-        let w = self.ref_units(key, src, last);
+        let w = self.ref_units(key, src, last, repl);
         let mut v: Vec<usize> = vec![];
         if self.cfg.few_caps {
             v.extend_from_slice(&[min, w.max(min), w + 64]);
@@ -326,7 +329,7 @@ impl<'a> Explorer<'a> {
             v.push(w + 64);
         }
         if self.cfg.or.query || !self.cfg.few_caps {
-            if let Some(q) = self.query(&key.dec, src.len()) {
+            if let Some(q) = self.query(&key.dec, src.len(), repl) {
                 if q < 1 << 20 {
                     v.push(q);
                 }
@@ -398,10 +401,10 @@ impl<'a> Explorer<'a> {
         let mut last = false;
         let mut done_chunk = true;
         let mut t: i64 = 0;
-        let mut do_call = |dec: &mut Decoder, run: &mut DecRun, src: &[u8], cap: usize, lastf: bool, fill: u8| -> Result<(Res, usize), String> {
+        let mut do_call = |dec: &mut Decoder, run: &mut DecRun, src: &[u8], cap: usize, lastf: bool, fill: u8, repl: bool| -> Result<(Res, usize), String> {
             let fill = if cfg.sink == Sink::Str { fill & 0x7F } else { fill };
             let d = Dst { cap, fill, align: 0, prior: None };
-            let o = call_decoder(dec, cfg.sink, cfg.repl, src, lastf, &d)?;
+            let o = call_decoder(dec, cfg.sink, repl, src, lastf, &d)?;
             t += o.read as i64;
             match scalars(&o, cfg.sink) {
                 Ok(v) => {
@@ -422,7 +425,7 @@ impl<'a> Explorer<'a> {
             Ok(r)
         };
         for c in calls {
-            let (res, read) = do_call(&mut dec, &mut run, &c.src, c.cap, c.last, c.fill)?;
+            let (res, read) = do_call(&mut dec, &mut run, &c.src, c.cap, c.last, c.fill, c.repl(cfg.repl))?;
             stream.extend_from_slice(&c.src[..read]);
             rem = c.src[read..].to_vec();
             last = c.last;
@@ -443,7 +446,7 @@ impl<'a> Explorer<'a> {
                 last = true;
             }
             let cap = rem.len() * 4 + 64;
-            let (res, read) = do_call(&mut dec, &mut run, &rem.clone(), cap, last, 0)?;
+            let (res, read) = do_call(&mut dec, &mut run, &rem.clone(), cap, last, 0, cfg.repl)?;
             stream.extend_from_slice(&rem[..read]);
             rem = rem[read..].to_vec();
             done_chunk = res == Res::InputEmpty;
@@ -476,7 +479,17 @@ impl<'a> Explorer<'a> {
         };
         let single = decode_stream_single(&cfg.enc, cfg.bom, cfg.sink, cfg.repl, &stream);
         let (reft, _) = crate::spec::ref_decode_all(&cfg.enc, cfg.bom, &stream);
-        let reft = if cfg.repl { fold_repl(&reft) } else { reft };
+        let reft = if cfg.repl || cfg.mixed { fold_repl(&reft) } else { reft };
+        let (chunked, single) = if cfg.mixed {
+            let mut c = chunked;
+            c.toks = fold_repl(&c.toks);
+            (c, single.map(|mut s| {
+                s.toks = fold_repl(&s.toks);
+                s
+            }))
+        } else {
+            (chunked, single)
+        };
         let mut charged = false;
         match &single {
             Ok(s) => {
@@ -528,16 +541,16 @@ impl<'a> Explorer<'a> {
 
     /// Executes one action from node `id` and records everything.
     #[allow(clippy::too_many_arguments)]
-    fn transition(&self, l: &mut Local, id: u32, key: &Key, src: &[u8], last: bool, fresh: bool, cap: usize, dalign: u8, salign: u8) {
+    fn transition(&self, l: &mut Local, id: u32, key: &Key, src: &[u8], last: bool, fresh: bool, cap: usize, dalign: u8, salign: u8, repl: bool) {
         let cfg = self.cfg;
         let or = &cfg.or;
         let min = cfg.sink.min_cap();
         let base_fill: u8 = if cfg.sink == Sink::Str { 0x25 } else { 0xA5 };
-        let call = Call { src: src.to_vec(), cap, last, fill: base_fill, dalign, salign };
+        let call = Call { src: src.to_vec(), cap, last, fill: base_fill, dalign, salign, method: if cfg.mixed { repl as u8 } else { 2 } };
         l.stats.transitions += 1;
         let mut dec = key.dec.clone();
         let d = Dst { cap, fill: base_fill, align: dalign as usize, prior: None };
-        let r = with_aligned_src(src, salign as usize, |s| call_decoder(&mut dec, cfg.sink, cfg.repl, s, last, &d));
+        let r = with_aligned_src(src, salign as usize, |s| call_decoder(&mut dec, cfg.sink, repl, s, last, &d));
         l.cur_obs = r.as_ref().ok().map(|o| obs_canon(o, cfg.sink.is_utf16())).or(Some("panic".into()));
         let o = match r {
             Ok(o) => o,
@@ -545,7 +558,7 @@ impl<'a> Explorer<'a> {
                 l.stats.class("panic");
                 if cap >= min {
                     self.vio(l, "C06", "panic", format!("call panicked with capacity {} >= minimum {}: {}", cap, min, m), id, &call);
-                    if or.twin && cfg.repl {
+                    if or.twin && repl && !cfg.mixed {
                         // does the documented manual procedure get through where the with-replacement
                         // method panics?
                         self.twin_after_panic(l, id, &call, &m);
@@ -618,7 +631,7 @@ impl<'a> Explorer<'a> {
             for f in fills {
                 let mut d2 = key.dec.clone();
                 let dd = Dst { cap, fill: f, align: dalign as usize, prior: None };
-                let r2 = with_aligned_src(src, salign as usize, |s| call_decoder(&mut d2, cfg.sink, cfg.repl, s, last, &dd));
+                let r2 = with_aligned_src(src, salign as usize, |s| call_decoder(&mut d2, cfg.sink, repl, s, last, &dd));
                 let same = match &r2 {
                     Ok(o2) => o2.res == o.res && o2.read == o.read && o2.written == o.written && o2.had_errors == o.had_errors && o2.out8 == o.out8 && o2.out16 == o.out16 && d2 == dec,
                     Err(_) => false,
@@ -657,7 +670,7 @@ impl<'a> Explorer<'a> {
                     let mut d2 = key.dec.clone();
                     let dd = Dst { cap, fill: 0, align: 0, prior: Some(&p) };
                     let saved = l.cur_obs.take();
-                    let res2 = call_decoder(&mut d2, cfg.sink, cfg.repl, src, last, &dd);
+                    let res2 = call_decoder(&mut d2, cfg.sink, repl, src, last, &dd);
                     match res2 {
                         Ok(o2) => {
                             if o2.whole_invalid {
@@ -683,7 +696,7 @@ impl<'a> Explorer<'a> {
         };
         // ---- C07
         if or.query {
-            if let Some(q) = self.query(&key.dec, src.len()) {
+            if let Some(q) = self.query(&key.dec, src.len(), repl) {
                 if cap >= q && o.res == Res::OutputFull {
                     self.vio(l, "C07", "outputfull-despite-queried-capacity", format!("query for {} input bytes returned {}, capacity {} offered, result OutputFull (read {}, written {})", src.len(), q, cap, o.read, o.written), id, &call);
                 }
@@ -737,7 +750,7 @@ impl<'a> Explorer<'a> {
         let mut own_classified = 0usize;
         let own_count = di.len() - own_start;
         let eq = |a: &DTok, b: &DTok| -> bool {
-            if cfg.repl {
+            if cfg.repl || cfg.mixed {
                 match (a, b) {
                     (DTok::Char(0xFFFD), DTok::Err { .. }) => true,
                     _ => a == b,
@@ -788,7 +801,7 @@ impl<'a> Explorer<'a> {
             tainted = true;
         }
         // ---- C09 flags: had_errors iff one of this call's units is a substitution
-        if or.flags && cfg.repl && !tainted {
+        if or.flags && repl && !cfg.mixed && !tainted {
             let mut known = own_classified == own_count;
             if !known && ds.is_empty() {
                 // the implementation ran ahead by peeking: classify with a look-ahead clone
@@ -826,7 +839,7 @@ impl<'a> Explorer<'a> {
             }
         }
         // ---- C09 twin at the end of complete histories
-        if or.twin && cfg.repl && fin {
+        if or.twin && repl && !cfg.mixed && fin {
             self.twin(l, id, &call);
         }
         if fin {
@@ -955,8 +968,11 @@ impl<'a> Explorer<'a> {
                 return l;
             }
             let src = key.rem.clone();
-            for cap in self.caps(&key, &src, key.last) {
-                self.transition(&mut l, id, &key, &src, key.last, false, cap, 0, 0);
+            let methods: &[bool] = if self.cfg.mixed { &[false, true] } else { std::slice::from_ref(&self.cfg.repl) };
+            for &repl in methods {
+                for cap in self.caps(&key, &src, key.last, repl) {
+                    self.transition(&mut l, id, &key, &src, key.last, false, cap, 0, 0, repl);
+                }
             }
         } else {
             let chunks = if !key.rs.decided && !self.chunks_undecided.is_empty() {
@@ -967,12 +983,15 @@ impl<'a> Explorer<'a> {
                 &self.chunks
             };
             for ch in chunks.iter().skip(lo).take(hi - lo) {
+                let methods: &[bool] = if self.cfg.mixed { &[false, true] } else { std::slice::from_ref(&self.cfg.repl) };
                 for last in [false, true] {
-                    let caps = self.caps(&key, ch, last);
-                    for cap in caps {
-                        let al: &[(u8, u8)] = if ch.len() >= 16 { aligns } else { &[(0, 0)] };
-                        for &(da, sa) in al {
-                            self.transition(&mut l, id, &key, ch, last, true, cap, da, sa);
+                    for &repl in methods {
+                        let caps = self.caps(&key, ch, last, repl);
+                        for cap in caps {
+                            let al: &[(u8, u8)] = if ch.len() >= 16 { aligns } else { &[(0, 0)] };
+                            for &(da, sa) in al {
+                                self.transition(&mut l, id, &key, ch, last, true, cap, da, sa, repl);
+                            }
                         }
                     }
                 }
